@@ -211,6 +211,11 @@ def correspondence(ctx):
 
 def oracle(ctx, widen=1):
     n = ctx.scale(150, 6000) * widen
+    from harness import cons as HC
+    cs, rs, bads = HC.refused_assignment_sweep(ctx.rng, ctx.scale(160, 1000) * widen)
+    for what, rep in bads[:20]:
+        ctx.violation(what, rep, {"kind": "rejected-update-mutates", "op": "cons:sweep-" + rep["name"]})
+    ctx.stream("oracle:refused-assignment-sweep", cs, min(cs, rs), raised=rs)
     kinds = set()
     cases = 0
     raised = 0
